@@ -4,7 +4,7 @@
    thresholds R (2*max_distance^2, strict) and M (max_distance^2, inclusive), EVERY target_values
    list and EVERY raster size. *)
 Require Import Base.Prelude Base.XVal C06.Model C06.Proofs C06.ProofsSpec C06.ProofsFill C06.Bounded.
-Require Import C06.Bearing C06.BearingProofs C06.BearingRange.
+Require Import C06.Bearing C06.BearingProofs C06.BearingRange C06.Metric C06.MetricProofs.
 From Coq Require Import PrimFloat SpecFloat.
 
 (* every non-NaN proximity is the distance key from the cell to ONE real target cell (in bounds,
@@ -14,7 +14,7 @@ Theorem C06_named_target_real :
   forall key tie_up R M xc yc values img r c e,
   let g := process key tie_up R M xc yc values img in
   let h := lenZ img in let w := lenZ (nthZ [] img 0) in
-  coords_ok xc w -> coords_ok yc h -> key_self0 key -> ele (EFin 0) M = true ->
+  coords_ok xc w -> coords_ok yc h -> key_self0_on key xc yc -> ele (EFin 0) M = true ->
   0 <= r < h -> 0 <= c < w ->
   prox_of g r c = LVal e ->
   exists tr tc d,
@@ -41,7 +41,7 @@ Theorem C06_prox_zero_iff_target :
   (prox_of g r c = LVal (EFin 0) <-> is_target values (cellv img r c) = true).
 Proof.
   intros key tie_up R M xc yc values img r c g h w Hx Hy Hix Hiy Hpd HM Hrect Hr Hc.
-  assert (Hk : key_self0 key) by (intros x y; apply Hpd; auto).
+  assert (Hk : key_self0_on key xc yc) by (intros i j x y _ _; apply Hpd; auto).
   exact (zero_iff_target key tie_up R M xc yc values img Hx Hy Hk HM Hrect Hpd Hix Hiy r c Hr Hc).
 Qed.
 Print Assumptions C06_prox_zero_iff_target.
@@ -51,7 +51,7 @@ Theorem C06_never_underestimated :
   forall key tie_up R M xc yc values img r c d,
   let g := process key tie_up R M xc yc values img in
   let h := lenZ img in let w := lenZ (nthZ [] img 0) in
-  coords_ok xc w -> coords_ok yc h -> key_self0 key -> ele (EFin 0) M = true -> rect img ->
+  coords_ok xc w -> coords_ok yc h -> key_self0_on key xc yc -> ele (EFin 0) M = true -> rect img ->
   0 <= r < h -> 0 <= c < w ->
   prox_of g r c = LVal (EFin d) ->
   exists b, brute key xc yc values img r c = Some b /\ b <= d.
@@ -81,7 +81,7 @@ Theorem C06_nan_beyond_max_distance :
   forall key tie_up R M xc yc values img r c,
   let g := process key tie_up R M xc yc values img in
   let h := lenZ img in let w := lenZ (nthZ [] img 0) in
-  coords_ok xc w -> coords_ok yc h -> key_self0 key -> ele (EFin 0) M = true ->
+  coords_ok xc w -> coords_ok yc h -> key_self0_on key xc yc -> ele (EFin 0) M = true ->
   0 <= r < h -> 0 <= c < w ->
   (forall tr tc d, is_target values (cellv img tr tc) = true ->
                    dist2 key xc yc tr tc r c = Some d -> ele (EFin d) M = false) ->
@@ -127,7 +127,7 @@ Theorem C06_single_target_exact :
   forall key tie_up xc yc values img r0 c0 r c,
   let g := process key tie_up EInf EInf xc yc values img in
   let h := lenZ img in let w := lenZ (nthZ [] img 0) in
-  coords_ok xc w -> coords_ok yc h -> rect img -> key_self0 key ->
+  coords_ok xc w -> coords_ok yc h -> rect img -> key_self0_on key xc yc ->
   is_target values (cellv img r0 c0) = true ->
   (forall r' c', is_target values (cellv img r' c') = true -> r' = r0 /\ c' = c0) ->
   0 <= r < h -> 0 <= c < w ->
@@ -151,7 +151,7 @@ Theorem C06_direction_names_same_target :
   forall atan2 key tie_up R M xc yc values img fxs fys r c e,
   let g := process key tie_up R M xc yc values img in
   let h := lenZ img in let w := lenZ (nthZ [] img 0) in
-  coords_ok xc w -> coords_ok yc h -> key_self0 key -> ele (EFin 0) M = true ->
+  coords_ok xc w -> coords_ok yc h -> key_self0_on key xc yc -> ele (EFin 0) M = true ->
   0 <= r < h -> 0 <= c < w ->
   prox_of g r c = LVal e ->
   exists tr tc d,
@@ -259,6 +259,31 @@ Example C06_bearing_zero_nonself_witness :
   is_self 0 0x1.caac24234c3ffp-27 1 0 = false /\
   calc_direction at2 0 0x1.caac24234c3ffp-27 1 0 = S754_zero false.
 Proof. vm_compute. split; reflexivity. Qed.
+
+(* ---- GREAT_CIRCLE: every theorem above is generic in [key]; with key := gc_key sin cos asin (C06/Metric.v) the only
+   premise about the metric they use, key_self0_on, follows from three libm premises ---- *)
+Theorem C06_great_circle_key_self0 :
+  forall sin cos asin : float -> float,
+  sin 0%float = 0%float -> asin 0%float = 0%float ->
+  (forall v, PrimFloat.is_finite v = true ->
+     PrimFloat.is_finite (cos v) = true /\ (abs (cos v) <=? 1)%float = true) ->
+  forall xc yc,
+  (forall i x, coord xc i = Some x -> PrimFloat.is_finite (Z_to_float x * DEG2RAD)%float = true) ->
+  (forall j y, coord yc j = Some y -> PrimFloat.is_finite (Z_to_float y * DEG2RAD)%float = true) ->
+  key_self0_on (gc_key sin cos asin) xc yc.
+Proof.
+  intros sin cos asin Hs Ha Hc xc yc Hx Hy i j x y Ex Ey.
+  apply gc_key_self; eauto.
+Qed.
+Print Assumptions C06_great_circle_key_self0.
+
+(* the GREAT_CIRCLE premises are satisfiable (toy libm: sin v = asin v = v, cos v = 1), and the key then behaves as a key *)
+Example C06_great_circle_premises_satisfiable :
+  let sin := fun v : float => v in let asin := fun v : float => v in let cos := fun _ : float => 1%float in
+  sin 0%float = 0%float /\ asin 0%float = 0%float /\
+  (PrimFloat.is_finite (cos 7%float) = true /\ (abs (cos 7%float) <=? 1)%float = true) /\
+  gc_key sin cos asin 10 10 (-20) (-20) = 0 /\ 0 < gc_key sin cos asin 10 11 (-20) (-20) < gc_key sin cos asin 10 12 (-20) (-20).
+Proof. vm_compute. repeat split; congruence. Qed.
 
 (* bounded supplement (vm_compute): for EVERY target layout on EVERY grid up to 3x4 / 4x3 with unit
    cells, EUCLIDEAN, max_distance in {inf, 1, sqrt 2, 2}: proximity = exact brute-force nearest
